@@ -2,6 +2,8 @@
 
 package sftp
 
+import sshfx "github.com/pkg/sftp/internal/encoding/ssh/filexfer"
+
 const vS = 3 // string bound (quick)
 
 func vh_C06_rt_read() {
@@ -30,5 +32,13 @@ func vh_C06_rt_write() {
 	r, ok := q.(*sshFxpWritePacket)
 	vAssert(ok, "decoded type")
 	vAssert(r.ID == p.ID && r.Length == p.Length && r.Offset == p.Offset && r.Handle == p.Handle && vBytesEq(r.Data, data), "WRITE round trip")
+	// the internal codec decodes the same bytes to the same fields, into a fresh
+	// and into a reused packet value
+	for _, old := range [][]byte{nil, vHavocBytes(vChoice(len(data) + 4))} {
+		var rp sshfx.RawPacket
+		vAssert(rp.UnmarshalBinary(b[4:]) == nil && rp.PacketType == sshfx.PacketTypeWrite && rp.RequestID == p.ID, "filexfer decodes WRITE envelope")
+		x := sshfx.WritePacket{Data: old}
+		vAssert(x.UnmarshalPacketBody(&rp.Data) == nil && x.Handle == p.Handle && x.Offset == p.Offset && vBytesEq(x.Data, data), "WRITE cross-codec fields (fresh and reused packet value)")
+	}
 	vEmit("wire", b)
 }
